@@ -196,6 +196,47 @@ func c03F2F3(l *core.Ledger, r *rt) {
 	enq := findEnqueueFn(l, r)
 	okSend := enq != nil && len(senders) == 1 && senders[0] == fnKey(enq)
 	l.Check(okSend, "C03-F2", "who-may-send/request-queue", token.NoPos, "only enqueue sends on the per-node queue", fmt.Sprintf("requests are put on a node queue by %v", senders))
+	// a second receive site in the same function is fine when it is a drain: a non-blocking select
+	// from which no path leads to the stream write (what it takes out is answered, not sent)
+	if len(receivers) > 1 && senderFn != nil {
+		same := true
+		for _, rcv := range receivers {
+			if rcv != fnKey(senderFn) {
+				same = false
+			}
+		}
+		if same {
+			nMain := 0
+			okDrains := true
+			sx.AllInstrs(senderFn, func(nd sx.Node, in ssa.Instruction) {
+				s2, isSel := in.(*ssa.Select)
+				if !isSel {
+					if u, isU := in.(*ssa.UnOp); isU && u.Op == token.ARROW && isRequestChan(u.X.Type()) {
+						nMain++
+					}
+					return
+				}
+				for _, st := range s2.States {
+					if st.Dir != types.RecvOnly || !isRequestChan(st.Chan.Type()) {
+						continue
+					}
+					if s2.Blocking {
+						nMain++
+						continue
+					}
+					if _, toWrite := sx.Reach(nd, func(x sx.Node) bool {
+						c, isCall := x.Instr().(*ssa.Call)
+						return isCall && isSendMsgCall(&c.Call)
+					}, sx.Query{}); toWrite {
+						okDrains = false
+					}
+				}
+			})
+			if nMain == 1 && okDrains {
+				receivers = receivers[:1]
+			}
+		}
+	}
 	okRecv := len(receivers) == 1 && senderFn != nil
 	l.Check(okRecv, "C03-F2", "who-may-receive/request-queue", token.NoPos, fmt.Sprintf("single consumer %v", receivers), fmt.Sprintf("the node queue is consumed at %d sites %v: two consumers reorder requests", len(receivers), receivers))
 	if senderFn != nil {
